@@ -22,7 +22,7 @@ func checkC08(c *Ctx) {
 	c.Rule("C08.guard", "GUARD: the strict decoders accept only canonical fixed-length encodings: ByteOrder.Element returns nil error only on the true edge of smallerThanModulus; SetBytesCanonical only with len(buf) == Bytes and a successful ByteOrder.Element; Vector.ReadFrom only after a successful ReadFull and ByteOrder.Element for every element", 23*4)
 	c.Rule("C08.def", "DEFASSIGN: every Element setter (Set*, Unmarshal*, SetBytesCanonical, SetRandom) writes the whole element on every accepting return and never reads the element before writing it (the result does not depend on the receiver's previous value — e.g. a limb left over from a previous, longer value)", 23*10)
 	c.Rule("C08.async", "PARALLEL-PHASE: in Vector.AsyncReadFrom the worker increments the atomic error counter when smallerThanModulus fails, and the result channel is closed without an error only if the counter is zero (a send of the error precedes close on every other path)", 23)
-	c.Rule("C08.pool", "POOL: a *big.Int obtained from the scratch pool is first used as the destination of a defining operation (never read first), is not used after Put, and is neither returned nor stored", 100)
+	c.Rule("C08.pool", "POOL: a *big.Int obtained from the scratch pool is first used as the destination of a defining operation (never read first), is not used after Put, and is neither returned nor stored; no conversion returns memory of an object (any sync.Pool) that it hands back to the pool", 100)
 	c.Rule("C08.err", "ERRORS: the vector codec inspects every error of its callees and tests an error assigned in a loop before overwriting it", 23*3)
 	c.Rule("C08.width", "L-WIDTH: a product of a length decoded from the input (binary.*.Uint32 ...) that is used as a slice length / bound / index is computed in int, not in the 32-bit type of the header: in uint32 the product wraps around for large headers and the payload window no longer matches the announced length (found: Vector.AsyncReadFrom, 23 packages)", 23)
 
@@ -77,6 +77,11 @@ func checkC08(c *Ctx) {
 	// pool discipline: all library functions
 	all := libFuncs(p)
 	nGets, hits := poolDiscipline(p, eff, all)
+	{
+		// and no conversion returns memory of an object it hands back to a sync.Pool
+		_, esc := pooledMemoryEscapes(p, libFuncs(p, propScopes["C08"]...))
+		hits = append(hits, esc...)
+	}
 	c.Instance("C08.pool", nGets)
 	reportFindings(c, p, "C08.pool", nil, hits, "")
 	c.Ob("C08.pool", "-", "-", "sites-analysed", "-", nGets > 0, "no pool.Get call site recognised")
